@@ -75,3 +75,12 @@ pub fn vx_wrapping_incr_i32(i: i32) -> (r: i32) ensures r == (if i == i32::MAX {
 pub uninterp spec fn f64_neg_spec(x: f64) -> f64;
 #[verifier::external_body]
 pub fn vx_f64_neg(x: f64) -> (r: f64) ensures r == f64_neg_spec(x) { -x }
+pub uninterp spec fn f64_min_spec(a: f64, b: f64) -> f64;
+pub uninterp spec fn f64_sqrt_spec(a: f64) -> f64;
+pub assume_specification[ f64::min ](a: f64, b: f64) -> (r: f64) ensures r == f64_min_spec(a, b);
+pub assume_specification[ f64::sqrt ](a: f64) -> (r: f64) ensures r == f64_sqrt_spec(a);
+pub uninterp spec fn f64_is_nan_spec(a: f64) -> bool;
+pub assume_specification[ f64::is_nan ](a: f64) -> (r: bool) ensures r == f64_is_nan_spec(a);
+pub uninterp spec fn f64_max_const() -> f64;
+#[verifier::external_body]
+pub fn vx_f64_max() -> (r: f64) ensures r == f64_max_const() { f64::MAX }
